@@ -632,13 +632,9 @@ func lexInsideTag(l *lexer) stateFn {
 func lexNegative(l *lexer) stateFn {
 	// is it unary or binary op?
 	// unary if it starts a group ('{' or '(') or an op came just before.
+	// it is binary only if the previous token can end an operand.
 	var lastType = l.lastEmit.typ
-	if lastType == itemInvalid ||
-		lastType.isOp() ||
-		lastType == itemLeftDelim ||
-		lastType == itemCase ||
-		lastType == itemComma ||
-		lastType == itemLeftParen {
+	if !endsOperand(lastType) {
 		// is it a negative number?
 		if l.peek() >= '0' && l.peek() <= '9' {
 			l.backup()
@@ -649,6 +645,18 @@ func lexNegative(l *lexer) stateFn {
 		l.emit(itemSub)
 	}
 	return lexInsideTag
+}
+
+// endsOperand returns true if a token of the given type can be the last token
+// of an operand, in which case a following '-' is a subtraction.
+func endsOperand(t itemType) bool {
+	switch t {
+	case itemNull, itemBool, itemInteger, itemFloat, itemString,
+		itemIdent, itemDollarIdent, itemDotIdent, itemQuestionDotIdent,
+		itemDotIndex, itemQuestionDotIndex, itemRightBracket, itemRightParen:
+		return true
+	}
+	return false
 }
 
 // lexSoyDoc emits:
